@@ -66,6 +66,7 @@ static int decodes_to(const pvec_t* p, const void* frame, size_t flen, const voi
 static void body_comp(void) {
     int entry = vx_choose(5), closingCk = entry >= 3 ? vx_choose(2) : 0;
     pvec_t p; if (entry == 1) { p = pvec_base(0); p.strategy = 0; p.windowLog = 0; p.level = PV_LEVELS[vx_choose(16)]; }
+    else if (entry == 2 && !vx_thorough) { static const int LV2[] = {1, 3, 6, 13, 19}; p = pvec_base(0); p.strategy = 0; p.windowLog = 0; p.level = LV2[vx_choose(5)]; }      /* quick tier: the stable-output entry with level vectors */
     else if (entry >= 3) { static const int LV[] = {1, 3, 5}; p = pvec_base(0); p.strategy = 0; p.windowLog = 0; p.level = LV[vx_choose(3)]; }      /* the closing call does not depend on the match finder: three cheap levels */
     else p = pvec_choose(0);
     if (entry == 4) p.magicless = 0;      /* the buffer-less entry takes level / strategy / window from the vector, nothing else */
